@@ -359,5 +359,9 @@ def run(ctx):
     # ---------------------------------------------------------------- C13.ARGS
     from ..rules_common import check_call_arguments
     check_call_arguments(ctx, "C13.ARGS", "C13")
+    from ..rules_common import check_effect_tables
+    check_effect_tables(ctx, "C13")
+    from ..rules_common import check_presence_tests, ARG_SCOPE
+    check_presence_tests(ctx, "C13.PRESENCE", classes=ARG_SCOPE.get("C13", []))
 
 
